@@ -1,16 +1,27 @@
 #!/bin/bash
 # Rebuilds the simulator binaries against /repo's CURRENT working tree (hooks enabled with -tags verif).
 #   build.sh plain|race|all
+# VERIF_REPO=<dir> builds against another goja tree (mutant self-tests), VERIF_BIN=<dir> chooses the output directory.
 set -u
 . "$(dirname "$0")/env.sh"
 cd "$VERIF_HOME/sim" || exit 2
-cp /repo/go.sum go.sum 2>/dev/null
-mkdir -p "$VERIF_HOME/bin"
+repo="${VERIF_REPO:-/repo}"
+bindir="${VERIF_BIN:-$VERIF_HOME/bin}"
+mkdir -p "$bindir"
+modflag=""
+if [ "$repo" != /repo ]; then
+  mf="$bindir/go.alt.mod"
+  sed "s#=> /repo#=> $repo#" go.mod > "$mf"
+  cp "$repo/go.sum" "$bindir/go.alt.sum"
+  modflag="-modfile=$mf"
+else
+  cp /repo/go.sum go.sum 2>/dev/null
+fi
 what="${1:-all}"
 if [ "$what" = plain ] || [ "$what" = all ]; then
-  $GO build -tags verif -o "$VERIF_HOME/bin/verif" ./cmd/verif || { echo "BUILD-FAILED (plain)"; exit 2; }
+  $GO build $modflag -tags verif -o "$bindir/verif" ./cmd/verif || { echo "BUILD-FAILED (plain)"; exit 2; }
 fi
 if [ "$what" = race ] || [ "$what" = all ]; then
-  $GO build -race -tags verif -o "$VERIF_HOME/bin/verif-race" ./cmd/verif || { echo "BUILD-FAILED (race)"; exit 2; }
+  $GO build $modflag -race -tags verif -o "$bindir/verif-race" ./cmd/verif || { echo "BUILD-FAILED (race)"; exit 2; }
 fi
 exit 0
